@@ -28,7 +28,7 @@ def part3_wiring(ctx):
     good = red is not None and red["source"] is not None and strip_iter_calls(red["source"]) == ("arg", 3) and \
         len(red["init"]) == 1 and is_call(red["init"][0], name="zero") and len(red["steps"]) == 1 and not red["skippable"] and \
         not red["early_exit"] and is_call(red["steps"][0], name="add") and red["steps"][0][2][0] == ACC and \
-        fld(lambda t: t == ("field", ITEM, None, "1"), "signing_share")(strip_newtype_fields(red["steps"][0][2][1])) and \
+        fld(lambda t: t == ("field", ITEM, None, "1"), "signing_share")(strip_newtype_fields(look_through(P, red["steps"][0][2][1]))) and \
         fld(arg(1), "secret_share")(strip_newtype_fields(own))
     ctx.check(good, "PROV", p3.key, "share==sum(received)+own",
               "the signing share must be the sum of every received round-two share plus the participant's own share: %s"
